@@ -10,6 +10,11 @@ Checked dynamically (model validation and failing-input search, NOT a proof):
      threshold, character references at all four sites, replaceTokens, ReaderMgr histories (with a leak counter);
  (2) the facts the conditional theorems depend on (read off the regenerated constants), each confirmed or refuted by
      a concrete witness run on the real library;
+ (4) reused parser: ONE parser object of each kind fed sequences of 2-6 documents (entities in content / attribute values,
+     external subsets and parameter entities with and without text declarations, XInclude, hostile mutations) with
+     between-document actions {nothing, resetDocumentPool, adoptDocument+release now / later, abandoned progressive parse}
+     and feature flips; a failing sequence is minimised by dropping documents and actions; replay = the sequence.
+     Backed by domParser_reset_complete: every AbstractDOMParser member that is a raw DOM-node pointer is nulled by reset().
  (3) the sanitizer search: harness/hx_parse.cpp parses generated and mutated documents in-process under
      {SAXParser, SAX2XMLReader, XercesDOMParser, DOMLSParser} x {IG, WF, DG, SG} x {never, auto, always} x feature bits;
      every ASan/UBSan report, crash, foreign exception, leak or watchdog time-out is a concrete violation with the case
@@ -18,7 +23,7 @@ import json, os, re, struct, subprocess, threading, time
 import common
 
 PID = "C01"
-GEN = ["SafetyConsts", "SafetyMsgs"]
+GEN = ["SafetyConsts", "SafetyMsgs", "DomParserFields"]
 LEAN_MODULE = "XV.Props.C01"
 THEOREMS = ["XV.Props.C01." + t for t in (
     # (a) growth
@@ -42,14 +47,16 @@ THEOREMS = ["XV.Props.C01." + t for t in (
     "expansion_work_bound",
     # DOM heap, BOM loop
     "domHeap_in_bounds", "domHeap_default_in_bounds", "domHeap_as_extracted", "domAllocate_oob_small_heap", "domAllocate_clamped_witness",
-    "ucs4_bom_shift_status", "ucs4_bom_shift_as_extracted")] + [
+    "ucs4_bom_shift_status", "ucs4_bom_shift_as_extracted",
+    # reused DOM parser: reset completeness over the generated member list
+    "domParser_reset_complete", "domParser_reset_reached", "domParser_no_stale_pointer_after_reset", "domParser_reset_nonvacuous")] + [
     "XV.Lemmas.MsgTables.shipped_messages_safe", "XV.Lemmas.MsgTables.tables_dim"]
 RULE = ("direct tier: op sequences of 5-400 ops per container with sizes drawn around every growth threshold (>= 10 growth "
         "steps), char refs of 1-40 digits incl. long zero runs and values around 0xD7FF/0xFFFD/0x10FFFF/2^32 at the 4 sites, "
         "replaceTokens texts with tokens/bare braces and replacement lengths around maxChars, ReaderMgr histories of 3-30 ops; "
         "parse tier: seeded corpus (DTD, entities, namespaces, XML 1.1, schemas, encodings, XInclude) x mutations (truncation at "
         "every offset, byte flips, splice, slice duplication, relabelled encodings, structural tokens, size generators) x random "
-        "API/scanner/validation/feature configuration; non-trivial = case reaching the scanner with >= 1 markup construct or an "
+        "API/scanner/validation/feature configuration; reused-parser tier: every ordered pair of 18 state-leaving / state-reading pool documents (a third per seed, the entity x text-declaration pairs always) on XercesDOMParser and DOMLSParser with the first document released, plus random sequences of 2-6 documents on all four parser kinds; non-trivial = case reaching the scanner with >= 1 markup construct or an "
         "op sequence with >= 1 growth step; distinct by case text")
 ASSUMPTIONS = [
     "PARTIAL: memory safety of the whole parser is not a theorem. Use-after-free / overflow outside the modelled functions is only searched for (ASan/UBSan harness), never proved absent",
@@ -60,6 +67,7 @@ ASSUMPTIONS = [
     "message texts: the in-memory loader of this build configuration (InMemMsgLoader + XercesMessages_en_US.hpp); ICU/iconv message catalogues are not covered",
     "continue-after-fatal (= exit-on-first-fatal off) is documented as undetermined behaviour: searched in a separate stream, findings listed in the evidence but not counted as violations",
     "the XMLReader byte/character windows (refreshRawBuffer / xcodeMoreChars / refreshCharBuffer) are modelled under C04, not here; only the UCS-4 BOM loop bound is stated here",
+    "reused parser: domParser_reset_complete is textual and path-insensitive (member list, pointer classification by declared type DOM*\u2009*, assignments `= 0` in reset() and the same-object methods it calls); members of XercesDOMParser / DOMLSParserImpl themselves (filter state, fFilterDelayedTextNodes …), of the SAX parsers and of the scanners (C15 ScannerFields) are not in this list: for them the reused-parser sequences are search only",
     "the harness never opens files or sockets: default entity resolution is disabled, the net accessor is removed; file/URL accessors are therefore not exercised"]
 TRUSTED = ["tools/translate_more.py gen_safety_consts / gen_safety_msgs (patterns over the C++ text; a pattern that no longer matches is a broken tie)",
            "harness/hx_safety.cpp, harness/hx_parse.cpp and the Python generators / classifier in this file",
@@ -169,6 +177,12 @@ def asan_summary(err):
 CALIBRATION_FAMILIES = {"laughs-nolimit"}     # unbounded by design (no limit set): slow, and not a violation
 
 def leak_class(cfg):
+    if cfg.startswith("SEQ "):
+        api = cfg.split()[1].split(":")[0]
+        for st in cfg.split(" ", 2)[2].split(" ## "):
+            fl = int(st.split(" ", 1)[0].split(":")[2], 16)
+            if (fl >> 8) & 1 and api in ("dom", "ls"): return "xinclude"
+        return "reused-parser"
     api, sc, val, fl, lim = cfg.split(":"); fl = int(fl, 16)
     if (fl >> 8) & 1 and api in ("dom", "ls"): return "xinclude"
     if (fl >> 1) & 1: return "schema"
@@ -345,7 +359,7 @@ def gen_rm(r):
 
 def direct_cases(ctx):
     r = ctx.rng
-    n = 6 if ctx.thorough() else 1
+    n = 10 if ctx.thorough() else 1
     lines = []
     fixed = ["XB 4 0 H0 n3,c,c,g", "XB 1023 8 H1 n8,c", "XB 1023 8 H0 n8,c", "XB 0 0 H0 c,c,c", "XB 3 0 H0 n3,c",
              "ES " + ",".join(["p"] * 200), "WS " + ",".join(["p", "x17"] * 60), "ES p," + ",".join(["x16", "c33"] * 12),
@@ -355,14 +369,14 @@ def direct_cases(ctx):
              "CR c 10 4.2.9.4.9.6.7.3.6.1", "CR a 10 4.2.9.4.9.6.7.3.6.1",
              "RM P-:0:1,P1:0:1,P2:1:1,P1:0:1,O0,O1,O0,O0,R", "RM P-:0:1,P1:1:0,O1,C1,C9,R,P-:0:1", "RM P-:0:1,P1:1:1,P1:1:1,P1:1:1,R"]
     lines += fixed
-    for _ in range(300 * n): lines.append(gen_xb(r))
-    for _ in range(60 * n): lines.append(gen_stack(r, "ES")); lines.append(gen_stack(r, "WS"))
-    for _ in range(150 * n): lines.append(gen_vec(r, "VV")); lines.append(gen_vec(r, "RV"))
-    for _ in range(100 * n): lines.append(gen_rt(r))
-    for _ in range(200 * n): lines.append(gen_db(r))
-    for _ in range(300 * n): lines.append(gen_tk(r))
-    for _ in range(500 * n): lines.append(gen_cr(r))
-    for _ in range(300 * n): lines.append(gen_rm(r))
+    for _ in range(180 * n): lines.append(gen_xb(r))
+    for _ in range(30 * n): lines.append(gen_stack(r, "ES")); lines.append(gen_stack(r, "WS"))
+    for _ in range(90 * n): lines.append(gen_vec(r, "VV")); lines.append(gen_vec(r, "RV"))
+    for _ in range(60 * n): lines.append(gen_rt(r))
+    for _ in range(120 * n): lines.append(gen_db(r))
+    for _ in range(180 * n): lines.append(gen_tk(r))
+    for _ in range(300 * n): lines.append(gen_cr(r))
+    for _ in range(180 * n): lines.append(gen_rm(r))
     return lines
 
 def spec_len(line):
@@ -674,10 +688,10 @@ def size_cases(r, thorough):
     add("many-attrs", "<a " + " ".join('a%d="%d"' % (i, i) for i in range(5000)) + "/>")
     add("many-attrs-ns", "<a " + " ".join('xmlns:p%d="urn:%d" p%d:b="1"' % (i, i, i) for i in range(1500)) + "/>")
     add("many-children", "<a>" + "<b/>" * 30000 + "</a>")
-    for n in (16383, 16384, 16385, 49151, 49152, 49153):
+    for n in ((16383, 16384, 16385, 49151, 49152, 49153) if thorough else (16384, 49152, 49153)):
         add("long-name", "<" + "n" * n + "/>")
         add("long-name", "<a " + "n" * n + '="1"/>')
-    for n in (16384 * 3 - 7, 16384 * 3 - 3, 16384 * 3 + 1):
+    for n in ((16384 * 3 - 7, 16384 * 3 - 3, 16384 * 3 + 1) if thorough else (16384 * 3 - 3,)):
         add("long-name-mb", "<a>" + "é" * (n // 2) + "</a>")
         add("long-name-mb", "<" + "€" * (n // 3) + "/>")
     add("long-attr", '<a b="' + "v" * 100000 + '"/>')
@@ -692,7 +706,7 @@ def size_cases(r, thorough):
     add("long-entity-name", "<a>&" + "e" * 100000 + ";</a>")
     add("long-doctype", "<!DOCTYPE " + "d" * 50000 + " [<!ELEMENT a EMPTY>]><a/>")
     add("long-literal", '<!DOCTYPE a PUBLIC "' + "p" * 70000 + '" "' + "s" * 70000 + '"><a/>')
-    for k in (48 * 1024 // 4 - 20, 48 * 1024 // 4 + 100, 3 * 48 * 1024 // 4):
+    for k in ((48 * 1024 // 4 - 20, 48 * 1024 // 4 + 100, 3 * 48 * 1024 // 4) if thorough else (48 * 1024 // 4 + 100,)):
         add("ucs4-bom", ucs4_doc(k)); add("ucs4-bom", ucs4_doc(k, little=True)); add("ucs4-nobom", ucs4_doc(k, bom=False))
     add("utf16-big", ('﻿<?xml version="1.0" encoding="UTF-16"?><a>' + "\U0001F600" * 20000 + "</a>").encode("utf-16-le"))
     add("ebcdic-big", ('<?xml version="1.0" encoding="ebcdic-cp-us"?><a>' + "x" * 100000 + "</a>").encode("cp037"))
@@ -711,7 +725,7 @@ def size_cases(r, thorough):
     add("laughs-limit", laughs(10, 10).replace("<a>&a9;</a>", '<a b="&a9;"/>'), flags=1 | (1 << 10), limit=1000)
     add("laughs-limit", laughs(30, 2), flags=1 | (1 << 10), limit=100)
     add("laughs-limit-caf", laughs(8, 10), flags=1 | (1 << 10) | (1 << 3), limit=1000)
-    add("laughs-nolimit", laughs(6, 10), flags=1)
+    if thorough: add("laughs-nolimit", laughs(6, 10), flags=1)       # calibration only (no limit set: slow by design)
     add("recursive-entity", '<!DOCTYPE a [<!ENTITY e "x&e;">]><a>&e;</a>')
     add("recursive-entity", '<!DOCTYPE a [<!ENTITY e "x&f;"><!ENTITY f "y&e;">]><a b="&e;">&f;</a>')
     add("recursive-entity", '<!DOCTYPE a SYSTEM "e.dtd"><a/>', {"e.dtd": '<!ENTITY % p SYSTEM "e.dtd">%p;'}, flags=1 | (1 << 4))
@@ -727,17 +741,19 @@ def size_cases(r, thorough):
             inner = '<xs:sequence minOccurs="0" maxOccurs="%s">%s</xs:sequence>' % (mx, inner)
         return '<xs:schema ' + XS + '><xs:element name="r"><xs:complexType><xs:sequence>' + inner + '</xs:sequence></xs:complexType></xs:element></xs:schema>'
     inst = '<r ' + XSI + ' xsi:noNamespaceSchemaLocation="s.xsd"><x>1</x><x>2</x></r>'
-    add("schema-occurs", inst, {"s.xsd": occ("100000", 0)}, flags=7)
-    add("schema-occurs", inst, {"s.xsd": occ("100000", 2)}, flags=7)
     add("schema-occurs", inst, {"s.xsd": occ("3000", 1)}, flags=3)
     add("schema-occurs", inst, {"s.xsd": occ("4294967296", 0)}, flags=7)
-    add("schema-occurs", inst, {"s.xsd": occ("99999999999999999999", 1)}, flags=7)
+    if thorough:
+        add("schema-occurs", inst, {"s.xsd": occ("100000", 0)}, flags=7)
+        add("schema-occurs", inst, {"s.xsd": occ("100000", 2)}, flags=7)
+        add("schema-occurs", inst, {"s.xsd": occ("99999999999999999999", 1)}, flags=7)
     def pat(p, val):
         return ('<r ' + XSI + ' xsi:noNamespaceSchemaLocation="s.xsd">%s</r>' % val,
                 {"s.xsd": '<xs:schema ' + XS + '><xs:element name="r"><xs:simpleType><xs:restriction base="xs:string"><xs:pattern value="%s"/></xs:restriction></xs:simpleType></xs:element></xs:schema>' % p})
-    for p, v in [("(b*)*c", "b"), ("(a|aa)*b", "a" * 28), ("(a*)*", "a" * 30 + "!"), ("[a-z]{1,1000}{1,1000}", "x"), ("a{0,100000}", "aaa"), ("(((a?){30}){30})", "a" * 20),
+    for p, v in [("(b*)*c", "b"), ("(a|aa)*b", "a" * 45), ("(a*)*", "a" * 30 + "!"), ("[a-z]{1,1000}{1,1000}", "x"), ("a{0,100000}", "aaa"), ("(((a?){30}){30})", "a" * 20),
                  ("\\p{L}*[\\i-[:]][\\c-[:]]*", "abc"), ("[\\s\\S]{65535}", "x"), ("(" * 2000 + "a" + ")" * 2000, "a"), ("a" * 50000, "a"), ("[" + "a-b" * 20000 + "]", "a"),
-                 ("\\p{IsBasicLatin}+\\P{Nd}", "ab"), ("(a|b|c|d|e|f|g){1,64}h", "abcdefg" * 9)]:
+                 ("\\p{IsBasicLatin}+\\P{Nd}", "ab"), ("(a|b|c|d|e|f|g){1,64}h", "abcdefg" * 9)][:(99 if thorough else 1)] + \
+                [("(a+)+b", "a" * 32), ("\\p{L}*[\\i-[:]][\\c-[:]]*", "abc"), ("(" * 2000 + "a" + ")" * 2000, "a")]:
         m, rs = pat(p.replace("&", "&amp;").replace("<", "&lt;"), v)
         add("regex-pattern", m, rs, flags=3)
     add("schema-deep-types", '<r ' + XSI + ' xsi:noNamespaceSchemaLocation="s.xsd"/>',
@@ -789,7 +805,7 @@ def parse_cases(ctx):
         for api in APIS:
             for sc in SCANNERS:
                 for val in VALS:
-                    if not ctx.thorough() and r.below(100) >= 30:
+                    if not ctx.thorough() and r.below(100) >= 22:
                         continue
                     f = fl | (1 << 19) | (1 if r.chance(2, 3) else 0) | ((1 << 4) if res else 0)
                     out.append((case_line("%s:%s:%s:%x:0" % (api, sc, val, f), main, res), "corpus-" + fam, False))
@@ -799,12 +815,12 @@ def parse_cases(ctx):
     for fam, main, res, fl in sweep:
         for b in OPT_BITS + [8, 10]:
             for api in ("dom", "sax2") if b not in (7, 8, 19) else ("dom", "ls"):
-                for sc in ("ig", "sg", "dg"):
+                for sc in (("ig", "sg", "dg") if ctx.thorough() else ("ig", "sg")):
                     f = fl | 1 | (1 << b) | ((1 << 4) if res else 0)
                     out.append((case_line("%s:%s:%s:%x:%d" % (api, sc, "auto", f, 3 if b == 10 else 0), main, res), "sweep-" + fam, False))
     # … truncation at every offset for the small documents
     for fam, main, res, fl in C:
-        if len(main) <= (400 if ctx.thorough() else 160):
+        if len(main) <= (400 if ctx.thorough() else 100):
             for k in range(len(main)):
                 out.append((case_line(pick_config(r, fl), main[:k], res), fam + "/trunc-all", False))
     for fam, main, res, fl in C:
@@ -814,7 +830,7 @@ def parse_cases(ctx):
                     nr = dict(res); nr[nm] = data[:k]
                     out.append((case_line(pick_config(r, fl | (1 << 4)), main, nr), fam + "/trunc-res", False))
     # random mutations
-    nmut = 140000 if ctx.thorough() else 2300
+    nmut = 140000 if ctx.thorough() else 1100
     for _ in range(nmut):
         fam, main, res, fl = r.choice(C)
         f2, m2, r2 = mutate(r, fam, main, res, mains)
@@ -824,15 +840,17 @@ def parse_cases(ctx):
     # size / adversarial shapes under a few configurations each
     S = size_cases(r, ctx.thorough())
     for fam, main, res, fl, lim in S:
-        reps = 6 if ctx.thorough() else 2
+        reps = 6 if ctx.thorough() else 1
         for k in range(reps):
             api = APIS[(k + len(main)) % 4]; sc = r.choice(SCANNERS); val = r.choice(VALS)
-            if fam.startswith(("schema", "regex")): sc = r.choice(["ig", "sg"]); val = r.choice(["auto", "always"])
+            if fam.startswith(("schema", "regex")):
+                sc = r.choice(["ig", "sg"]); val = r.choice(["auto", "always"])
+                if api == "ls": val = "auto"      # DOMLSParser validates against the schema under validate-if-schema
             if fam.startswith("dtd-cm"): sc = r.choice(["ig", "dg"]); val = "always" if k % 2 == 0 else "auto"
             caf = bool((fl >> 3) & 1)
             out.append((case_line("%s:%s:%s:%x:%d" % (api, sc, val, fl | ((1 << 4) if res else 0), lim), main, res), fam, caf))
     # continue-after-fatal stream (documented as undetermined: reported separately)
-    ncaf = 12000 if ctx.thorough() else 500
+    ncaf = 12000 if ctx.thorough() else 250
     for _ in range(ncaf):
         fam, main, res, fl = r.choice(C)
         f2, m2, r2 = mutate(r, fam, main, res, mains)
@@ -847,7 +865,8 @@ def nontrivial(line):
 def which_reproduce(cands, key, family, caf):
     """indices of the candidate lines on which the same finding key shows up again (all candidates run in parallel)"""
     o, e, _ = run_sharded("hx_parse", cands, nproc=min(NPROC, len(cands)))
-    return [k for k in range(len(cands)) if any(kk == key for kk, _ in classify(o[k], e.get(k, ""), family, caf, cands[k].split(" ", 1)[0]))]
+    return [k for k in range(len(cands)) if any(kk == key for kk, _ in classify(o[k], e.get(k, ""), family, caf,
+                                                                                  cands[k] if cands[k].startswith("SEQ ") else cands[k].split(" ", 1)[0]))]
 
 def ddmin_line(line, key, family, caf, budget=30.0):
     """ddmin over the bytes of the main document, then of each resource, keeping the finding key"""
@@ -879,6 +898,9 @@ def ddmin_line(line, key, family, caf, budget=30.0):
         res[k] = shrink(res[k], lambda d, k=k: case_line(cfg, main, dict(res, **{k: d})))
     return case_line(cfg, main, res)
 
+def known_open_keys():
+    return {f["key"] for f in common.load_findings() if f.get("property") == PID and f.get("status") == "open"}
+
 def run_parse(ctx, found, cases=None, label="parse"):
     cases = cases if cases is not None else parse_cases(ctx)
     lines = [c[0] for c in cases]
@@ -903,7 +925,7 @@ def run_parse(ctx, found, cases=None, label="parse"):
             caf_findings[key] = {"what": what[:300], "line": line[:2000], "impl": o}
             continue
         small = line
-        if nmin < (12 if ctx.thorough() else 5) and not key.startswith(("resource:", "timeout:")) and len(line) < 900000:
+        if nmin < (12 if ctx.thorough() else 5) and not key.startswith(("resource:", "timeout:")) and len(line) < 900000 and key not in known_open_keys():
             try:
                 small = ddmin_line(line, key, fam.split("/")[0], caf, budget=(40.0 if ctx.thorough() else 15.0))
                 nmin += 1
@@ -929,6 +951,165 @@ def run_parse(ctx, found, cases=None, label="parse"):
     ctx.samples.append({"parse_case": lines[-1][:400], "family": cases[-1][1], "impl": outs[-1]})
     return len(lines)
 
+
+# ====================================================================== (4) reused parser: one object, a sequence of documents
+def seq_pool():
+    """small documents that leave or consume state in the parser object: (tag, main, resources, needed flags)"""
+    TD = '<?xml version="1.0" encoding="UTF-8"?>'
+    P = []
+    def add(tag, main, res=None, flags=1):
+        P.append((tag, main.encode("utf-8") if isinstance(main, str) else main, {k: (v.encode("utf-8") if isinstance(v, str) else v) for k, v in (res or {}).items()}, flags))
+    add("ent-content", '<!DOCTYPE a [<!ENTITY e "text<b/>more">]><a>&e;</a>')
+    add("ent-fatal-inside", '<!DOCTYPE a [<!ENTITY e "<b>unclosed">]><a>&e;</a>')
+    add("ent-nested", '<!DOCTYPE a [<!ENTITY i "in"><!ENTITY o "<c>&i;&i;</c>"><!ATTLIST a t CDATA "&i;">]><a u="&i;x">&o;<d>&o;</d></a>')
+    add("ent-attr", '<!DOCTYPE a [<!ENTITY v "val"><!ATTLIST a d CDATA "def&v;">]><a b="x&v;y"/>')
+    add("ext-subset-textdecl", '<!DOCTYPE a SYSTEM "e.dtd"><a>x</a>', {"e.dtd": TD + '<!ELEMENT a ANY><!ATTLIST a k CDATA "dk">'}, 1 | (1 << 4))
+    add("ext-subset-plain", '<!DOCTYPE a SYSTEM "e.dtd"><a>x</a>', {"e.dtd": '<!ELEMENT a ANY><!ENTITY g "gv">'}, 1 | (1 << 4))
+    add("ext-pe-textdecl", '<!DOCTYPE a [<!ENTITY % p SYSTEM "p.ent">%p;]><a/>', {"p.ent": TD + '<!ELEMENT a ANY>'}, 1 | (1 << 4))
+    add("ext-pe-plain", '<!DOCTYPE a [<!ENTITY % p SYSTEM "p.ent">%p;]><a>&q;</a>', {"p.ent": '<!ENTITY q "from-pe">'}, 1 | (1 << 4))
+    add("ext-general-textdecl", '<!DOCTYPE a [<!ENTITY x SYSTEM "x.ent">]><a>&x;</a>', {"x.ent": TD + 'ext<c/>text'}, 1 | (1 << 4))
+    add("ext-general-fatal", '<!DOCTYPE a [<!ENTITY x SYSTEM "x.ent">]><a>&x;</a>', {"x.ent": TD + 'ext<c>'}, 1 | (1 << 4))
+    add("ext-subset-ents", '<!DOCTYPE a SYSTEM "e.dtd" [<!ENTITY loc "l">]><a>&loc;&g;&x;</a>',
+        {"e.dtd": TD + '<!ENTITY g "gv"><!ENTITY x SYSTEM "x.ent">', "x.ent": TD + "xv"}, 1 | (1 << 4))
+    add("ext-missing", '<!DOCTYPE a SYSTEM "nowhere.dtd"><a>&u;</a>', None, 1 | (1 << 4))
+    add("plain-ns", '<p:a xmlns:p="urn:p"><p:b c="1">t</p:b><!-- c --><?pi d?></p:a>')
+    add("not-wf", '<a><b></a>')
+    add("xinclude", '<a xmlns:xi="http://www.w3.org/2001/XInclude"><xi:include href="inc.xml"/></a>', {"inc.xml": '<!DOCTYPE i [<!ENTITY e "iv">]><i>&e;</i>'}, 1 | (1 << 8))
+    add("xml11", '<?xml version="1.1"?><!DOCTYPE a [<!ENTITY e "&#1;">]><a>&e;</a>')
+    add("utf16", '﻿<?xml version="1.0" encoding="UTF-16"?><!DOCTYPE a [<!ENTITY e "é">]><a>&e;</a>'.encode("utf-16-le"))
+    add("schema", '<r ' + XSI + ' xsi:noNamespaceSchemaLocation="s.xsd">5</r>',
+        {"s.xsd": '<xs:schema ' + XS + '><xs:element name="r" type="xs:int"/></xs:schema>'}, 3)
+    return P
+
+ACTS = ["n", "p", "a", "l", "g0", "g2", "g7"]
+def seq_step(act, val, flags, limit, main, res):
+    return "%s:%s:%x:%d %s" % (act, val, flags, limit, hexs(main)) + ("" if not res else " | " + " ".join("%s=%s" % (k, hexs(v)) for k, v in sorted(res.items())))
+
+def seq_line(api, sc, steps):
+    return "SEQ %s:%s " % (api, sc) + " ## ".join(steps)
+
+def seq_cases(ctx):
+    """list of (line, family, caf).  (i) every ordered pair of pool documents on each DOM parser kind with the first document
+    released; (ii) random sequences of 2-6 documents (pool, corpus, mutated) with random between-document actions and feature
+    flips on every parser kind."""
+    r = ctx.rng
+    P = seq_pool(); C = corpus(); mains = [c[1] for c in C]
+    out = []
+    k = 0
+    for x in P:
+        for y in P:
+            for api in ("dom", "ls"):
+                k += 1
+                if not ctx.thorough() and k % 3 != (ctx.seed % 3):        # a third of the pairs per seed in the quick tier …
+                    if not (x[0].startswith("ent-") and "textdecl" in y[0]):    # … but always the state-leaving x state-reading pairs
+                        continue
+                act = ("p", "a")[k % 2]
+                f1 = x[3] | (1 << 4) | (1 << 19) | ((1 << 7) if k % 3 == 0 else 0)
+                f2 = y[3] | (1 << 4) | (1 << 19) | ((1 << 7) if k % 5 == 0 else 0)
+                out.append((seq_line(api, "ig", [seq_step(act, "never", f1, 0, x[1], x[2]), seq_step("n", "auto", f2, 0, y[1], y[2])]), "seq-pair", False))
+    nseq = 9000 if ctx.thorough() else 220
+    for _ in range(nseq):
+        api = r.choice(APIS); sc = r.choice(["ig", "ig", "ig", "dg", "wf", "sg"])
+        steps = []
+        for _ in range(2 + r.below(5)):
+            c = r.below(100)
+            if c < 60:
+                tag, main, res, fl = r.choice(P)
+            elif c < 85:
+                tag, main, res, fl = r.choice(C)
+            else:
+                tag, main, res, fl = r.choice(P if r.chance(1, 2) else C)
+                tag, main, res = mutate(r, tag, main, res, mains)
+            f = fl | (1 if r.chance(2, 3) else 0) | ((1 << 4) if r.chance(3, 4) else 0) | ((1 << 7) if r.chance(1, 3) else 0) | ((1 << 19) if r.chance(1, 2) else 0)
+            for b in (6, 9, 11, 13, 15):
+                if r.chance(1, 10): f |= 1 << b
+            lim = 0
+            if r.chance(1, 8): f |= 1 << 10; lim = r.choice([1, 5, 100])
+            f &= ~(1 << 3)
+            steps.append(seq_step(r.choice(ACTS), r.choice(VALS), f, lim, main, res))
+        out.append((seq_line(api, sc, steps), "seq-" + api, False))
+    return out
+
+def seq_split(line):
+    head, rest = line.split(" ", 2)[0:2], line.split(" ", 2)[2]
+    return head[1], rest.split(" ## ")
+
+def ddmin_seq(line, key, family, budget=40.0):
+    """drop documents, then turn actions into `n`, while the same finding key reproduces"""
+    t0 = time.time()
+    hd, steps = seq_split(line)
+    mk = lambda st: "SEQ %s %s" % (hd, " ## ".join(st))
+    changed = True
+    while changed and len(steps) > 1 and time.time() - t0 < budget:
+        changed = False
+        cands = [steps[:i] + steps[i + 1:] for i in range(len(steps))]
+        hit = which_reproduce([mk(c) for c in cands], key, family, False)
+        if hit:
+            steps = cands[hit[0]]; changed = True
+    cands = []
+    for i, st in enumerate(steps):
+        act, rest = st.split(":", 1)
+        if act != "n":
+            cands.append((i, steps[:i] + ["n:" + rest] + steps[i + 1:]))
+    if cands and time.time() - t0 < budget:
+        hit = which_reproduce([mk(c[1]) for c in cands], key, family, False)
+        for h in hit:            # apply the simplifications one at a time, re-checking the combination
+            i = cands[h][0]
+            trial = steps[:i] + ["n:" + steps[i].split(":", 1)[1]] + steps[i + 1:]
+            if which_reproduce([mk(trial)], key, family, False):
+                steps = trial
+    return mk(steps)
+
+def describe_seq(line):
+    hd, steps = seq_split(line)
+    parts = []
+    for st in steps:
+        cfg, rest = st.split(" ", 1)
+        bits = rest.split(" | ")
+        doc = bytes.fromhex(bits[0]) if bits[0] != "-" else b""
+        res = {}
+        if len(bits) > 1:
+            for kv in bits[1].split():
+                k, v = kv.split("="); res[k] = bytes.fromhex(v) if v != "-" else b""
+        parts.append("[%s] %r%s" % (cfg, doc[:160], "".join(" + %s=%r" % (k, v[:120]) for k, v in sorted(res.items()))))
+    return "one %s parser: " % hd + "  THEN  ".join(parts)
+
+def run_seq(ctx, found, cases=None, label="seq"):
+    cases = cases if cases is not None else seq_cases(ctx)
+    lines = [c[0] for c in cases]
+    t0 = time.time()
+    outs, errs, crashes = run_sharded("hx_parse", lines, wall_per_case=10.0)
+    ctx.stats[label + "_wall_s"] = round(time.time() - t0, 1)
+    hist = {}; per_key = {}
+    for k, (line, fam, caf) in enumerate(cases):
+        o = outs[k]
+        for ob in (o.split("; ") if not o.startswith(("CRASH", "NO-OUTPUT")) else [o.split()[0]]):
+            t = ob.split()[0] if ob else "?"
+            hist[t] = hist.get(t, 0) + 1
+        for key, what in classify(o, errs.get(k, ""), "reused-parser", caf, line):
+            cur = per_key.get(key)
+            if cur is None or len(line) < len(cur[0]):
+                per_key[key] = (line, fam, o, what)
+    nmin = 0
+    for key, (line, fam, o, what) in sorted(per_key.items()):
+        small = line
+        if nmin < 6 and not key.startswith(("resource:", "timeout:")) and key not in known_open_keys():
+            try:
+                small = ddmin_seq(line, key, "reused-parser", budget=(60.0 if ctx.thorough() else 25.0)); nmin += 1
+            except Exception as e:
+                ctx.notes.append("sequence minimisation failed for %s: %r" % (key, e))
+        found.setdefault(key, {"key": key, "concrete": True,
+            "what": "%s  [reused parser, %d document(s): %s]" % (what[:400], len(seq_split(small)[1]), describe_seq(small)[:1500]),
+            "replay": {"tier": "seq", "harness": "hx_parse", "line": small, "family": "reused-parser", "caf": False, "impl": o,
+                       "unminimised_documents": len(seq_split(line)[1])}})
+    ctx.stats[label + "_cases"] = len(lines)
+    ctx.stats[label + "_documents"] = sum(len(seq_split(l)[1]) for l in lines)
+    ctx.stats[label + "_step_outcomes"] = dict(sorted(hist.items(), key=lambda kv: -kv[1])[:12])
+    ctx.stats[label + "_process_deaths"] = len(crashes)
+    mid = len(lines) // 2
+    ctx.samples.append({"reused_parser_sequence": describe_seq(lines[mid])[:600], "impl": outs[mid]})
+    return len(lines)
+
 # ====================================================================== entry points
 def correspondence(ctx):
     found = {}
@@ -936,6 +1117,7 @@ def correspondence(ctx):
     found.update(dfound)
     run_facts(ctx, found)
     n = run_parse(ctx, found)
+    n += run_seq(ctx, found)
     for key in sorted(found):
         ctx.violations.append(found[key])
     ctx.stats["evaluations"] = len(dl) + n
@@ -976,6 +1158,8 @@ def replay(ctx, path):
     h = rp.get("harness", "hx_parse")
     o, e, _ = run_sharded(h, [line], args=tuple(rp.get("args", ())), nproc=1)
     print("case  :", line[:600] + ("…" if len(line) > 600 else ""))
+    if line.startswith("SEQ "):
+        print("steps :", describe_seq(line)[:3000])
     if h == "hx_safety" and not rp.get("args"):
         m = common.run_driver(["safety"], input=(line + "\n").encode()).decode().strip()
         print("model :", m)
